@@ -18,7 +18,10 @@ B3  the shipped service files, batches of near-identical requests (a base + its 
     synchronization vector, which cannot be computed alone); the last run of every batch builds the requests through
     the API (PathRequest(**params)) instead of the JSON loader; synchronization batches with several feasible disjoint
     combinations; batches under non-default process-wide SimParams (GGN on a few channels of the comb), with
-    SimParamsFrozen judged like NetworkFrozen.
+    SimParamsFrozen judged like NetworkFrozen.  The crafted mesh bench of this part (MESH) has Raman-pumped spans (element
+    class RamanFiber) and runs under the DEFAULT process-wide parameters (Raman solver off); one near-identical base (E)
+    leaves the mode open over a fine ladder of thresholds, so that its variants - same transponder type, spacing and
+    route, another comb - each select their own mode when computed alone.
 """
 import copy
 import random
@@ -27,6 +30,8 @@ from harness import tlc
 from harness.core import Machinery
 from harness.gnpy_util import EX, TD
 from harness import planning_util as pu
+
+MESH = 'meshV2+island+raman'     # the crafted mesh bench of B3: mesh V2 + an unreachable site + Raman-pumped spans
 
 CLAUSES16 = ('OneEntryPerRequest', 'Independent', 'ModelAgrees', 'OnlySlotsDependOnHistory', 'NetworkFrozen', 'SimParamsFrozen',
              'OrderIndependent', 'OnlyRouteRedesigned', 'RedesignIsForTheRequest')
@@ -480,7 +485,9 @@ def run(chk):
                 orders.append((f'shuffled-{k}', o))
         jobs += b3_file(chk, bench, label, data, orders, cache)
     # near-identical requests: a base and its one-attribute variants must each come out as if computed alone
-    for bench in (['meshV2+island'] if chk.tier == 'quick' else ['meshV2+island', 'testTopology']):
+    # (the crafted mesh bench of this part has Raman-pumped spans - an element class of its own - and runs under the default
+    # process-wide simulation parameters, i.e. Raman solver off)
+    for bench in ([MESH] if chk.tier == 'quick' else [MESH, 'testTopology']):
         for label, reqs in pu.near_identical(bench):
             if chk.tier == 'quick' and label.endswith('-C'):
                 continue        # long bidirectional automatic-mode base: thorough tier (quick has it under GGN, one span)
@@ -531,7 +538,7 @@ def run(chk):
     # seeded random batches (every blocking reason, fixed / multi slots, aggregation), each in several orders
     nrand = 1 if chk.tier == 'quick' else 32
     for b in range(nrand):
-        bench = 'meshV2+island' if b % 4 != 3 else 'testTopology'
+        bench = MESH if b % 4 != 3 else 'testTopology'
         reqs = pu.loadable(bench, pu.random_batch(rng, bench, f'r{b}-', 10))
         n = len(reqs)
         orders = [('original', list(range(n))), ('reversed', list(reversed(range(n))))]
@@ -609,8 +616,14 @@ def run(chk):
                'rows of the batch (all of them / one of them)')
     chk.assume('network settings are observed through json_io.network_to_json (one CRC per exported element) plus the element '
                'list of every OMS (from the start of routing to the end of planning)')
-    chk.assume('bench equipment = shipped eqpt_config.json plus two library transceiver types (VerifDense 25 GHz comb, '
-               'VerifHard unreachable OSNR thresholds); no gnpy code is modified')
+    chk.assume('bench equipment = shipped eqpt_config.json plus library transceiver types (VerifDense 25 GHz comb, '
+               'VerifHard unreachable OSNR thresholds, VerifMixed / VerifEdge impairment penalties, VerifLadder 201 modes '
+               'with thresholds every 0.1 dB); no gnpy code is modified')
+    chk.assume(f'B3 crafted mesh bench {MESH}: the spans of {pu.RAMAN_MIN_KM} km or more that end at '
+               f'{pu.RAMAN_SITE["meshV2"]} are RamanFibers (two counter-propagating pumps), used under the default process-wide '
+               'simulation parameters (Raman solver off - API use without a sim-params file); this network is loaded and '
+               'designed once per process and every run works on its own deep copy (measured: same results and same '
+               'network_to_json as a fresh load + design)')
     chk.assume('B2 expectation "blocked NO_SPECTRUM / served" relies on first-fit filling from the bottom of the band '
                '(checked on the solo runs); N/M values themselves are C14 business and only compared solo vs batch')
 
